@@ -182,6 +182,11 @@ inductive UpdRes
   | failed (b : KvBlk) (e : AddRes)    -- `_kvblk_addkv` failed after the old record was removed
 deriving Repr, DecidableEq
 
+/-- the block after the call, whatever the outcome -/
+def UpdRes.blk : UpdRes → KvBlk
+  | .ok b _ => b
+  | .failed b _ => b
+
 /-- `_kvblk_updatev`: new value for the record of slot `idx` (the key is the one stored there) -/
 def updatev (b : KvBlk) (idx : Nat) (val : Bytes) : UpdRes :=
   let kvp := b.slots.getD idx Slot.free
@@ -223,14 +228,14 @@ inductive Op
   | compact
 deriving Repr
 
+/-- slot numbers come from `sblk->pi[]`, which holds numbers below `KVBLK_IDXNUM` (asserted by `_sblk_rmkv` and
+`_kvblk_updatev`); other numbers are not operations -/
 def step (b : KvBlk) : Op → KvBlk
   | .add k v => match addkv b k v with
     | .ok b' _ => sync b'
     | _ => b
-  | .rm i => sync (rmkv b i false)
-  | .upd i v => match updatev b i v with
-    | .ok b' _ => sync b'
-    | .failed b' _ => sync b'
+  | .rm i => if i < Gen.KVBLK_IDXNUM then sync (rmkv b i false) else b
+  | .upd i v => if i < Gen.KVBLK_IDXNUM then sync (updatev b i v).blk else b
   | .compact => sync (compact b)
 
 def run (b : KvBlk) (ops : List Op) : KvBlk := ops.foldl step b
